@@ -10,4 +10,4 @@ cp /repo/go.sum go.sum 2>/dev/null || true
 # serialise concurrent builds (several checks may start at once)
 exec 9>/verif/.build/build.lock
 flock 9
-$GO build -tags verif -overlay /verif/.build/overlay/overlay.json -o /verif/.build/check ./cmd/check
+$GO build -tags verif -overlay /verif/.build/overlay/overlay.json -o /verif/.build/check ${CHECK_MAIN:-./cmd/check}
